@@ -1,5 +1,6 @@
 import Juniper.Generated.Par
 import Juniper.Generated.ParDoFacts
+import Juniper.Generated.SkeletonPar
 /-!
 # Model of `parallel.Do` / `DoContext` — C13 (the wrappers `Map` / `MapContext`: `Model/ParWrap.lean`)
 
@@ -46,6 +47,9 @@ structure Code where
   spawnPost : Int → Int
   /-- conjunction of the presence-of-statement facts of the body -/
   structural : Bool
+  /-- the control skeletons of the body (top level, sequential path, worker loop: statement kinds in source
+  order, identifiers normalised away, `Juniper.Gen.SkeletonPar`) are the ones `step` was written against -/
+  skeleton : Bool
 
 /-- `parallel.Do` as it is in the source now. -/
 def doCode : Code where
@@ -71,6 +75,14 @@ def doCode : Code where
   structural := Par.doSeqCalls && Par.doSeqReturns && Par.doSpawnsGoroutine && Par.doWorkerReturnsWhenDone
     && Par.doWorkerCalls && Par.doFetchBeforeCall && Par.doWgAdd && Par.doWgDone && Par.doWgWait
     && Par.doAddBeforeWait
+  -- `Do`: clamp low, clamp high, sequential fast path (`for …; return`), counter, wait group, `wg.Add`, spawn
+  -- loop of `go` statements, `wg.Wait()`, `return`; sequential path: `for … { f(i) }; return`; worker:
+  -- `defer wg.Done()`, then forever: fetch, `if … { return }`, `f(i)`
+  skeleton := decide (
+    SkeletonPar.pskelDo =
+      ["if{assign}", "if{assign}", "if{for{..};return}", "define", "decl", "mcall", "for{go{..}}", "mcall", "return"]
+    ∧ SkeletonPar.pskelDoSeq = ["for{call}", "return"]
+    ∧ SkeletonPar.pskelDoWorker = ["defer", "forever{define;if{return};call}"])
 
 /-- `parallel.DoContext` as it is in the source now. -/
 def dcCode : Code where
@@ -97,6 +109,14 @@ def dcCode : Code where
     && Par.dcWorkerReturnsNilWhenDone && Par.dcWorkerReturnsCtxErr && Par.dcWorkerCalls
     && Par.dcWorkerReturnsErr && Par.dcFetchBeforeCheck && Par.dcCheckBeforeCall
     && Par.dcSpawnsViaErrgroup && Par.dcReturnsWait
+  -- `DoContext`: clamp low, clamp high, sequential fast path, counter, errgroup, spawn loop of `eg.Go(func …)`,
+  -- `return eg.Wait()`; sequential path: `for … { err := f(ctx, i); if err != nil { return err } }; return nil`;
+  -- worker: forever: fetch, done?, cancelled?, call, failed?
+  skeleton := decide (
+    SkeletonPar.pskelDoContext =
+      ["if{assign}", "if{assign}", "if{for{..};return}", "define", "define", "for{mcall{..}}", "return"]
+    ∧ SkeletonPar.pskelDoContextSeq = ["for{define;if{return}}", "return"]
+    ∧ SkeletonPar.pskelDoContextWorker = ["forever{define;if{return};if{return};define;if{return}}"])
 
 /-- What the proofs need to know about the anchored expressions. Discharged for `doCode` and
 `dcCode` from the regenerated definitions (`Proofs/ParDo*.lean`): an operator flipped in the source
@@ -123,6 +143,9 @@ structure Code.Sound (c : Code) : Prop where
   spawnLoop : ∀ j p, c.spawnLoop j p = decide (j < p)
   spawnPost : ∀ j, c.spawnPost j = j + 1
   structural : c.structural = true
+  /-- the statement order `step` hard-wires is the one of the source (a hypothesis like the others: nothing in
+  `Proofs/` proves it, every property theorem discharges it by `decide`) -/
+  skeleton : c.skeleton = true
 
 structure Cfg where
   code : Code
